@@ -12,15 +12,17 @@ NOTE = ("Trusted: Coq 8.16.1 kernel (+vm_compute), extraction with ExtrOcamlBasi
 
 CHECKS = {
     'C01': dict(
-        text="Coq theorems about the Gallina models of tokenizer, parser and converter: (string level) for EVERY text of letter names "
-             "separated by > + and runs of ^, tokenize+parse yields a tree whose preorder (depth, name) list is the denotation of the "
-             "operators; (token level) the same for all flat statements and for statements with groups ( ... )*N nested to any depth "
-             "(mutual induction); convert_shape: the unrolled forest has the denoted depth list and every written element times the "
-             "repeat counts around it; implicit-name decision rule over the table regenerated from the source. _partial: the "
-             "formatter's tag events and the composition into one expand theorem are covered by the whole-pipeline "
-             "model/implementation correspondence and by an independent denotation oracle on expand() output.",
-        technique="Coq proof by induction over statements/units with a parser-spine invariant, tokenizer step lemmas, converter unrolling spec + generated ELEMENT_MAP table + whole-pipeline model/implementation correspondence and denotation oracle",
-        ref="DESIGN.md §5 C01"),
+        text="Coq theorems about the whole expand model at STRING level (props/C01Expand.v): for every text of names separated by > + "
+             "and runs of ^, with *N on elements and with nested groups ( ... )*N, and every configuration of a stated clean domain "
+             "(HTML-family formatter, comments off, no wrap text, names not snippet keys / lorem; formatting on or off, every "
+             "self-closing style), expand_markup succeeds and its tag chunks nest to exactly the denoted (depth, name) list: every "
+             "written element once per repetition, in document order, with its own name. Built from: tokenizer step lemmas, parser "
+             "spine invariant (flat and groups), converter unrolling spec, snippet/transform identity on plain names, format_events. "
+             "Implicit-name decision rule proved over the table regenerated from the source (composition for nameless elements: "
+             "correspondence + oracle). Whole-pipeline model/implementation correspondence and an independent denotation oracle "
+             "on expand() output cover attributes, snippets, wrap text and the remaining configurations.",
+        technique="Coq proof: end-to-end composition (tokenizer, parser spine by mutual induction over statements and groups, converter unrolling, resolve/transform identity, formatter tag events) + generated ELEMENT_MAP table + whole-pipeline model/implementation correspondence and denotation oracle",
+        ref="DESIGN.md §5 C01, §10"),
     'C02': dict(
         text="Coq theorems for all token trees (without $# / implicit *): convert equals a pure unrolling spec with a budget "
              "(C02_limit_full, closed form of maxRepeat), exactly N consecutive copies indexed in order, counters of the nearest "
@@ -68,8 +70,9 @@ CHECKS = {
         text="Coq theorems for the markup model: for ALL abbreviations and ALL configurations with well-formed snippet tables expand_markup "
              "returns Ok or a Scanner/Token parse error with 0 <= pos <= length, never Internal, never OutOfFuel (tokenize_safe, "
              "parser_safe for all token lists, convert_safe, resolve_safe with tight fuel bound, complete sweep of the regenerated "
-             "built-in tables); the same for the stylesheet model (C07_css_expand_safe, parser over all token lists with fuel adequacy). "
-             "BEM, lorem text and CPython's recursion limit are implementation-oracle only (exhaustive short strings, random and "
+             "built-in tables), including the BEM addon (bem never raises; bem.enabled configurations are inside C07_expand_safe); the same "
+             "for the stylesheet model (C07_css_expand_safe, parser over all token lists with fuel adequacy). "
+             "Lorem text, markup.href rewriting and CPython's recursion limit are implementation-oracle only (exhaustive short strings, random and "
              "mutated abbreviations, random option sets); two listed recursion-limit findings.",
         technique="Coq proof stage-wise (tokenizer, parser over all token lists, converter, snippet resolution with fuel bound, composition) + complete vm_compute sweep of generated snippet tables + exhaustive short-string outcome-class correspondence",
         ref="DESIGN.md §5 C07"),
@@ -149,10 +152,13 @@ CHECKS = {
         technique="Coq proof by structural induction over the input (skip-counter scanner models) and over event lists + exhaustive short-string correspondence",
         ref="DESIGN.md §5 C16"),
     'C17': dict(
-        text="Coq theorems: get_open_tag soundness/completeness, next/previous item selection and selection-model ranges for HTML; "
-             "get_css_section, direct declarations with name/value/token/before/after offsets, select_item_css ranges for CSS, over the "
-             "event/token models; tied by correspondence on generated documents with ground truth at every position. One known finding "
-             "(brace-terminated declaration full range).",
+        text="Coq theorems, all full: select_item_html as an EQUATION for every string, position and direction (tag-name range, per "
+             "attribute full range, unquoted value, class words with de-duplication), get_open_tag as an equation; on TEXT of the "
+             "C09/C10 level-B grammars: select_item_html / get_open_tag return the tags of the document's own record with ranges "
+             "slicing exactly to the written names, attributes, values and class tokens; get_css_section returns the innermost rule "
+             "and its direct declarations with exact name/value/before/after offsets; select_item_css equals the tree spec. Tied by "
+             "correspondence on generated documents with ground truth at every position. One known finding (brace-terminated "
+             "declaration full range).",
         technique="Coq proof over scanner-event and attribute-token models + model/implementation correspondence on generated documents with ground truth",
         ref="DESIGN.md §5 C17"),
     'C18': dict(
